@@ -131,7 +131,7 @@ pub fn run(ctx: &Ctx) -> PropResult {
     let lo = 0i128; // 0001-01-01T00:00:00Z
     let hi = cal::days_from_civil(9999, 12, 31) as i128 * D + D - 1;
     let mut wls = vec![];
-    wls.push(Workload::cases("write_side", ctx.n(200_000, 10_000_000), move |rec, idx, rng| {
+    wls.push(Workload::cases("write_side", ctx.count(200_000, 10_000_000), move |rec, idx, rng| {
         // local year must stay within 0001..=9999
         let off = match rng.below(4) {
             0 => 0,
@@ -165,11 +165,11 @@ pub fn run(ctx: &Ctx) -> PropResult {
         judge_read(rec, &st, false);
         judge_read(rec, &st, true);
     }));
-    wls.push(Workload::cases("read_side_random", ctx.n(200_000, 10_000_000), |rec, idx, rng| {
+    wls.push(Workload::cases("read_side_random", ctx.count(200_000, 10_000_000), |rec, idx, rng| {
         let st = gen_valid(rng);
         judge_read(rec, &st, idx % 4 == 0);
     }));
-    wls.push(Workload::cases("read_side_field_mutations", ctx.n(80_000, 3_000_000), |rec, _, rng| {
+    wls.push(Workload::cases("read_side_field_mutations", ctx.count(80_000, 3_000_000), |rec, _, rng| {
         let st = gen_valid(rng);
         let (m, what) = mutate_field(rng, &st);
         if !m.fields_valid() {
